@@ -777,8 +777,8 @@ fn main() {
         rep.finish();
         return;
     }
-    let n_a = a.pick(3000u64, 60_000);
-    let n_b = a.pick(600u64, 20_000);
+    let n_a = a.pick(3000u64, 150_000);
+    let n_b = a.pick(600u64, 50_000);
     let threads = if std::env::var("C04_DEBUG").is_ok() { 1 } else { a.pick(4usize, 12) };
     std::thread::scope(|sc| {
         for shard in 0..threads {
